@@ -17,6 +17,8 @@ type IfUnless struct {
 	originalTs map[string][]base.T
 	narrowTs   map[string][]base.T
 	ifNarrowTs map[string][]base.T
+	// narrowTs as the conditions of the earlier branches left it
+	earlierNarrowTs map[string][]base.T
 	// classes the tests of the current condition exclude from a variable
 	// (!x.nil?, or x.nil? under unless); ifNarrowTs holds the admitted ones
 	ifExcludeTs map[string][]base.T
@@ -126,7 +128,9 @@ func (i *IfUnless) setConditionalCtx(
 			break
 		}
 
-		original := origVariants[0]
+		// the exclusion applies to what the variable can be when the test is
+		// reached: in an elsif, what the earlier branches left over
+		original := currentT
 
 		// x.is_a?(Integer) && !x.nil?: the exclusion applies to what an
 		// earlier test of the same condition admitted
@@ -179,8 +183,11 @@ func (i *IfUnless) setConditionalCtx(
 			)
 		}
 
+		// remaining is cumulative over the tests of this condition; what the
+		// conditions of earlier branches (if ... elsif) recorded stays
 		if !skipNarrow && isElseNarrowed {
-			i.narrowTs[object] = remaining
+			i.narrowTs[object] =
+				append(append([]base.T{}, i.earlierNarrowTs[object]...), remaining...)
 		}
 	}
 
@@ -243,6 +250,11 @@ func (i *IfUnless) getBackupContext(
 	isOr := false
 
 	i.isAndChain = i.hasAndInCondition(p)
+
+	i.earlierNarrowTs = make(map[string][]base.T)
+	for object, narrowTs := range i.narrowTs {
+		i.earlierNarrowTs[object] = append([]base.T{}, narrowTs...)
+	}
 
 	for {
 		err := i.beforeEval(*e, p, ctx)
